@@ -75,6 +75,8 @@ func extraSuite(name string, g *gen, e *emitter, n int) bool {
 		suiteACRHX(e, n)
 	case "treex":
 		suiteTreeX(e, n)
+	case "ip6x":
+		suiteIP6X(e, n)
 	case "validatex":
 		suiteValidateX(e, n)
 	case "servex":
